@@ -299,6 +299,10 @@ type c12Monitor struct {
 	run *runner
 	ep  *c12Endpoints
 	lim *sigLimiter
+	// stuck counts parses that blocked forever; each costs the 10 s wait and
+	// leaves a parked goroutine behind, so after three of them the remaining
+	// inputs of this child are skipped (and counted)
+	stuck int
 }
 
 func inputWitness(s string) map[string]any {
@@ -316,6 +320,10 @@ func inputWitness(s string) map[string]any {
 func (m *c12Monitor) check(idx int64, sub string, c *c12Case, s string, endpoints bool, calib string) string {
 	run := m.run
 	verdict := "ok"
+	if m.stuck >= 3 {
+		run.count("inputs_skipped_after_blocked_parses", 1)
+		return "skipped"
+	}
 	viol := func(sig, summary string, extra map[string]any) {
 		d := inputWitness(s)
 		d["family"] = c.Family
@@ -344,6 +352,8 @@ func (m *c12Monitor) check(idx int64, sub string, c *c12Case, s string, endpoint
 	}
 	if strings.HasPrefix(pt, "NO-RETURN ") {
 		viol("C12:no-return:"+strings.TrimPrefix(firstLine(pt), "NO-RETURN "), "schema.Parse did not return (blocked): "+firstLine(pt), map[string]any{"detail": pt})
+		m.stuck++
+		return verdict // the endpoints would block on the same input
 	} else if pt != "" {
 		viol("C12:panic:parse:"+topFrames(pt, 3), "schema.Parse panicked: "+firstLine(pt), map[string]any{"stack": pt})
 		return verdict
